@@ -86,6 +86,40 @@ pub fn search_roots(seed: u64, n: usize, h: &ZobristHasher, swings: bool) -> Vec
     out
 }
 
+/// Roots with exactly one or two legal moves: sparse endings in check, rich positions in check
+/// with a single reply (the forced-reply shapes of C10), near-stalemates.
+pub fn few_move_roots(seed: u64, n: usize, h: &ZobristHasher) -> Vec<Root> {
+    let mut rng = Rng::stream(seed, 0xF0CED);
+    let mut out = Vec::new();
+    let mats: &[(&[Kind], &[Kind])] = &[(&[Kind::Queen], &[]), (&[Kind::Rook], &[]), (&[Kind::Queen], &[Kind::Pawn]), (&[Kind::Rook, Kind::Rook], &[Kind::Knight]), (&[Kind::Queen, Kind::Bishop], &[Kind::Pawn, Kind::Pawn])];
+    let mut tries = 0;
+    while out.len() < n && tries < 400_000 {
+        tries += 1;
+        let cand = if tries % 3 == 0 {
+            // X to move with a single reply, plenty of material on the board
+            super::c10::forced_reply_cycle(&mut rng).map(|(c, cyc)| {
+                let mut p = c;
+                for m in &cyc[..3] {
+                    p = apply(&p, *m);
+                }
+                p
+            })
+        } else {
+            let (w, b) = mats[rng.below(mats.len() as u64) as usize];
+            super::c11::material_position(&mut rng, w, b, Color::Black)
+        };
+        if let Some(p) = cand {
+            let nl = legal_moves(&p).len();
+            if nl == 1 || (nl == 2 && rng.chance(1, 3)) {
+                if let Ok(r) = make_root(History { start: p.clone(), moves: vec![], end: p }, h) {
+                    out.push(r);
+                }
+            }
+        }
+    }
+    out
+}
+
 /// Roots on which iterative deepening gets very deep within an ordinary time slice.
 pub fn deep_iteration_roots(seed: u64, n: usize, h: &ZobristHasher) -> Vec<Root> {
     let mut rng = Rng::stream(seed, 0xDEE9);
@@ -315,7 +349,7 @@ pub fn choose_ks(q: u64, rinf: &SearchRun, rng: &mut Rng, all_below: u64, random
 
 pub fn run_c07(tier: Tier, seed: u64) -> i32 {
     let mut run = Run::new("C07", tier, seed, "fault_enumeration");
-    run.rule = "fault = the index k of the clock query at which the allowance expires (thread-local virtual clock substituted in utils::out_of_time; monotone like the real clock). For each root (position + history loaded through the real position handler) and iteration limit D the unaborted run R_inf is recorded (Q clock queries, event list of sends and info lines), then R_k is run for every k in [0,Q] when Q is small, otherwise for k in [0,150], the last 80, every k within 3 of an accepted improvement / info line / iteration start, k at and after the entry of (a sample of) null-move children, and seeded random k. evaluation = one run R_k (or one handed-back board). Checkmated and stalemated roots are run with every expiry index 0..Q+2 as well (nothing may be handed back, nothing may panic). Non-trivial = 0 < k < Q (expiry strictly inside the search) or an expiry on a terminal root; distinct by (root, D, k)".into();
+    run.rule = "fault = the index k of the clock query at which the allowance expires (thread-local virtual clock substituted in utils::out_of_time; monotone like the real clock). For each root (position + history loaded through the real position handler) and iteration limit D the unaborted run R_inf is recorded (Q clock queries, event list of sends and info lines), then R_k is run for every k in [0,Q] when Q is small, otherwise for k in [0,150], the last 80, every k within 3 of an accepted improvement / info line / iteration start, k at and after the entry of (a sample of) null-move children, and seeded random k. evaluation = one run R_k (or one handed-back board). Roots with exactly one or two legal moves (single replies to a check in sparse and in rich positions) are part of the root set. Checkmated and stalemated roots are run with every expiry index 0..Q+2 as well (nothing may be handed back, nothing may panic). Non-trivial = 0 < k < Q (expiry strictly inside the search) or an expiry on a terminal root; distinct by (root, D, k)".into();
     run.assumptions = vec![
         "the virtual clock can expire between any two consecutive queries and never un-expires, exactly like the monotonic Instant it replaces; it cannot create an execution the real clock could not".into(),
         "repetition record equality is exact: an entry left behind with a zero count is a difference".into(),
@@ -325,7 +359,14 @@ pub fn run_c07(tier: Tier, seed: u64) -> i32 {
     let h = ZobristHasher::create_zobrist_hasher();
     let t_phase = std::time::Instant::now();
     let n_roots = tier.pick(80usize, 800);
-    let roots = search_roots(seed, n_roots, &h, false);
+    let mut roots = search_roots(seed, n_roots, &h, false);
+    // roots with exactly one or two legal moves (a single reply to a check, a near-stalemate):
+    // the root loop's special cases - first move, last move, nothing accepted yet - coincide there
+    {
+        let few = few_move_roots(seed, tier.pick(16, 120), &h);
+        run.acc.count("roots_with_one_or_two_legal_moves", few.len() as u64);
+        roots.extend(few);
+    }
     let all_below = tier.pick(1200u64, 5000);
     let random_n = tier.pick(150u64, 500);
     // jobs: (root, D)
@@ -624,7 +665,7 @@ pub fn c12_check_root(root: &Root, h: &ZobristHasher, budget: u64, sample: bool,
 
 pub fn run_c18(tier: Tier, seed: u64) -> i32 {
     let mut run = Run::new("C18", tier, seed, "exploration");
-    run.rule = "evaluation = one info line. In-process: every line captured from the real search under the virtual clock, with the allowance expiring at enumerated clock-query indices k (C07's enumeration on a smaller root set, depth limits 1..5) so that the clock cuts the search at every kind of point; black box: every info line of timed go commands on the real binary. Each line is checked against the strict grammar `info pv <moves> depth D nodes N score (cp X|mate Y) time T`, D >= 1 and non-decreasing within a search, Y != 0, |X| < 9 999 999 and <= 100 000, the value implied by mate Y within the mate range, first PV move legal at the root, strictly increasing score within one depth. Non-trivial = a run that produced at least one line with the expiry strictly inside the search; distinct by (root, D, k) or transcript".into();
+    run.rule = "evaluation = one info line. In-process: every line captured from the real search under the virtual clock, with the allowance expiring at enumerated clock-query indices k (C07's enumeration on a smaller root set, depth limits 1..5) so that the clock cuts the search at every kind of point; black box: every info line of timed go commands on the real binary, including info bursts (mate-in-one roots under slices of 1-4 ms: about a hundred lines within a millisecond or two while the I/O thread prints bestmove). Each line is checked against the strict grammar `info pv <moves> depth D nodes N score (cp X|mate Y) time T`, D >= 1 and non-decreasing within a search, Y != 0, |X| < 9 999 999 and <= 100 000, the value implied by mate Y within the mate range, first PV move legal at the root, strictly increasing score within one depth. Non-trivial = a run that produced at least one line with the expiry strictly inside the search; distinct by (root, D, k) or transcript".into();
     run.assumptions = vec![
         "a leaked sentinel prints as 'score mate -4949999'; the implied-value bound catches it, and no correct line can trip it because mate is printed only within 15 of the mate score".into(),
         "first PV move is compared by from/to squares (PV tokens carry no promotion letter by design of the engine's output)".into(),
@@ -709,6 +750,7 @@ pub fn run_c18(tier: Tier, seed: u64) -> i32 {
         run.acc.merge(a, &["deep_max_iteration_reached"]);
     }
     super::timed::c18_blackbox(&mut run);
+    super::timed::burst_sessions(&mut run, "C18");
     run.floor_distinct = 200;
     run.finish()
 }
